@@ -244,6 +244,7 @@ func checkC18(c DialCell, o *Obs) error {
 			return end, nil
 		}
 	}
+	proxyAsked := 0
 	d := websocket.Dialer{}
 	if c.ND {
 		f := mk("NetDial")
@@ -268,7 +269,16 @@ func checkC18(c DialCell, o *Obs) error {
 		if err != nil {
 			return fmt.Errorf("harness: proxy url %q: %v", pu, err)
 		}
-		d.Proxy = func(*http.Request) (*url.URL, error) { return purl, nil }
+		// A Proxy function need not be pure (rotation, health checks): it is
+		// asked once per dial; what it said then holds for the whole dial.  A
+		// second question within the same dial is answered "no proxy".
+		d.Proxy = func(*http.Request) (*url.URL, error) {
+			proxyAsked++
+			if proxyAsked > 1 {
+				return nil, nil
+			}
+			return purl, nil
+		}
 	}
 	defer func() {
 		for i, e := range hl.ends {
@@ -285,6 +295,7 @@ func checkC18(c DialCell, o *Obs) error {
 		hl.mu.Lock()
 		callsBefore := len(hl.calls)
 		hl.mu.Unlock()
+		proxyAsked = 0
 		var conn *websocket.Conn
 		var err error
 		var hdr http.Header
